@@ -439,7 +439,14 @@ impl<'a, T: Elem> BackendVisitor<T> for Vis<'a> {
             }
         }
         let len = self.len;
-        let ws: Vec<usize> = self.ws.clone().unwrap_or_else(|| (1..=len + 3).collect());
+        let ws: Vec<usize> = self.ws.clone().unwrap_or_else(|| {
+            let mut v: Vec<usize> = (1..=len + 3).collect();
+            if len <= 3 {
+                // "unbounded" windows: sizes that do not survive a conversion to a signed or narrower integer
+                v.extend([usize::MAX, usize::MAX - 1, (1usize << 63) + 1, 1usize << 63, (1usize << 63) - 1, (1usize << 32) + 1]);
+            }
+            v
+        });
         for w in ws {
             for d in DRIVERS {
                 if d == Driver::CustomIter {
